@@ -550,6 +550,77 @@ def run_e2e(ctx, cases=None):
     ctx.traces_vs_impl += n
 
 
+def run_redirects(ctx):
+    """the proxy decision is taken afresh for EVERY connection of a redirect chain (real WebSocket.connect):
+    (O) each hop's dial target = what Spec's decision says for that hop's host and scheme under the caller's options and
+    environment — not what an earlier hop resolved."""
+    import websocket
+    import websocket._handshake as HS
+    from urllib.parse import urlsplit
+    chains = [["ws://a.example/", "wss://b.example/x"], ["wss://a.example/", "ws://b.example/"], ["ws://a.example/", "ws://b.example/"],
+              ["ws://a.example/", "wss://b.example/", "ws://c.example/y"]]
+    settings = [({}, {"http_proxy": "http://envp.example:3128"}),
+                ({}, {"http_proxy": "http://u:pw@envp.example:3128", "https_proxy": "http://secp.example:8443"}),
+                ({}, {"https_proxy": "http://secp.example:8443"}),
+                ({"http_proxy_host": "optp.example", "http_proxy_port": 8080, "http_no_proxy": ["a.example"]}, {}),
+                ({"http_proxy_host": "optp.example", "http_proxy_port": 8080, "http_no_proxy": ["b.example"]}, {}),
+                ({"http_proxy_host": "optp.example", "http_proxy_port": 8080, "http_proxy_auth": ("u", "p")}, {"no_proxy": "c.example"}),
+                ({"http_no_proxy": ["b.example"]}, {"http_proxy": "http://envp.example:3128", "https_proxy": "http://envp.example:3128"})]
+    runs, lines = [], []
+    for chain in chains:
+        for opts, env in settings:
+            net = N.Net(addrs=["a"], redirects=chain[1:])
+            HS.CookieJar.jar.clear()
+            try:
+                with N.patched(net, env):
+                    ws = websocket.WebSocket()
+                    ws.connect(chain[0], **opts)
+                res = "connected" if ws.connected else "not-connected"
+            except Exception as e:  # noqa
+                res = common.canon_exc(e)
+            runs.append((chain, opts, env, res, net))
+            for url in chain:
+                u = urlsplit(url)
+                lines.append(f"s-decision {hx(u.hostname)} {int(u.scheme == 'wss')} {hx(opts.get('http_proxy_host') or '')} "
+                             f"{opts.get('http_proxy_port', 0)} {auth_arg(opts.get('http_proxy_auth'))} "
+                             f"{hx_list(opts.get('http_no_proxy'))} {env_arg(env)}")
+    out = common.run_driver(lines)
+    k = 0
+    for chain, opts, env, res, net in runs:
+        inp = {"op": "redirect-chain", "chain": chain, "options": {a: (list(b) if isinstance(b, (list, tuple)) else b) for a, b in opts.items()},
+               "env": env}
+        resolves = [e for e in net.log if e[0] == "resolve"]
+        ctx.case(key=("redir", str(chain), str(sorted(opts.items())), str(sorted(env.items()))), nontrivial=True,
+                 cls=f"redirect-chain:hops={len(chain)}", sample=dict(inp, trace=N.render_events(net.log)[:300]) if len(ctx.samples) < 13 else None)
+        decisions = out[k:k + len(chain)]
+        k += len(chain)
+        if res != "connected" or len(resolves) != len(chain):
+            ctx.violate("proxy-iff-given-and-not-exempt", "redirect-chain-not-followed", inp, f"{len(chain)} connections, connected",
+                        f"{res}, {len(resolves)} connections", size=len(str(inp)))
+            continue
+        for hop, url in enumerate(chain):
+            d = decisions[hop]
+            u = urlsplit(url)
+            sec = u.scheme == "wss"
+            kind = d.split(" ")[0]
+            if kind == "direct":
+                want = (u.hostname, u.port or (443 if sec else 80))
+            elif kind == "option":
+                want = (opts["http_proxy_host"], opts["http_proxy_port"])
+            elif kind == "env":
+                pu = urlsplit(bytes.fromhex(d.split(" ")[1]).decode())
+                want = (pu.hostname, pu.port or 80)
+            else:
+                continue
+            got = (resolves[hop][1], resolves[hop][2])
+            if got != want:
+                ctx.violate("proxy-iff-given-and-not-exempt", "stale-decision-on-redirected-connection" if hop else "wrong-first-hop", inp,
+                            f"hop {hop} ({url}): dial {want} [{kind}]", f"dialled {got}; trace {N.render_events(net.log)[:300]}",
+                            size=len(str(inp)))
+                break
+    ctx.traces_vs_impl += len(runs)
+
+
 # ------------------------------------------------------------------------------ corpus / entry points
 
 def corpus_cases():
@@ -595,13 +666,14 @@ def run(ctx):
                 "thorough), lists of 2 (3) entries over a 12-entry pool, every prefix length 0..32 x aligned/unaligned "
                 "network x inside/edge/outside addresses, malformed CIDRs, option/no_proxy/NO_PROXY sources; decision: "
                 "option host x port x auth x no_proxy option x the four proxy variables x no_proxy env x ws/wss; tunnel: "
-                "replies of every status class, malformed heads, eof x credentials; e2e connect in the simulated network "
+                "replies of every status class, malformed heads, eof x credentials; e2e connect in the simulated network; redirect chains of 2-3 hops changing scheme/host under 7 option/environment settings (decision per hop) "
                 "(non-trivial = exempt / proxied / credentialed / non-200)")
     run_inputs(ctx, [c["input"] for c in corpus_cases() if "input" in c])
     run_noproxy(ctx)
     run_decision(ctx)
     run_tunnel(ctx)
     run_e2e(ctx)
+    run_redirects(ctx)
 
 
 def search(ctx):
